@@ -91,7 +91,7 @@ def corpus(tr, sd):
         found = rng.sample(found, min(25, len(found)))
     for b in found:
         cases.append(dict(kind="lark", text=b, origin="repo"))
-    n = 250 if tr == "quick" else 1500
+    n = 250 if tr == "quick" else 900
     for i in range(n):
         g = larkgen.gen_grammar(rng)
         cases.append(dict(kind="lark", text=g["text"], origin="seed%d" % sd))
@@ -189,7 +189,7 @@ def run():
     from concurrent.futures import ProcessPoolExecutor
     tm = Timer()
     tr, sd, prop = tier(), seed(), "C15"
-    N = 8 if tr == "quick" else 11
+    N = 8 if tr == "quick" else 10
     cases = corpus(tr, sd)
     inconclusive = []
     try:
